@@ -1,6 +1,7 @@
 package main
 
 import (
+	"os"
 	"strings"
 
 	"golang.org/x/tools/go/ssa"
@@ -60,7 +61,13 @@ func runC10(p *Program, e *Engine, r *Result, tier string) {
 				continue
 			}
 			arg := call.Call.Args[len(call.Call.Args)-1]
-			c10Classify(a, v, call, valueEdges(v.Ctx, arg, v.Cond), sizeofRecord(a, df))
+			edges := valueEdges(v.Ctx, arg, v.Cond)
+			if os.Getenv("C10DEBUG") != "" {
+				for _, e := range edges {
+					println("C10DEBUG", a.P.instrPos(call), e.Ctx.path(e.V), "::", e.Cond.String())
+				}
+			}
+			c10Classify(a, v, call, edges, sizeofRecord(a, df))
 		}
 	}
 	if n == 0 {
